@@ -10,7 +10,7 @@
   "mode": "bounded",
   "plain": true,
   "frame_check": "none: harness-checked contract (VERIF_PLAIN_CONTRACT in verif.h; DESIGN 9.2) - under goto-instrument's frame instrumentation this unit ran out of memory. The assigns clause below is documentation only.",
-  "bounds": "TLS (not DTLS) record payload of every length <= N (N=12), every content, with and without a pending reassembly buffer (12 bytes, any fill level); proof over enumerated entry states (role x hsState: 8 quick, 20 thorough); at most 2 handshake messages per record (one of them may be the completion of the pending fragment) (goto parseHandshake loop unwound with unwinding assertion); allocations may fail",
+  "bounds": "TLS (not DTLS) record payload of every length <= N (N=12), every content, with and without a pending reassembly buffer (12 bytes, any fill level); enumerated entry states (role x hsState: 4 quick, 20 thorough; the cases with a pending reassembly buffer are thorough only - quick covers reassembly in C08/tls12_hs_reassembly); at most 2 handshake messages per record (one of them may be the completion of the pending fragment) (goto parseHandshake loop unwound with unwinding assertion); allocations may fail",
   "cases_file": "common/tls12_hs_cases.json",
   "unwind": 16,
   "unwindset": ["parseSSLHandshake.0:4"],
@@ -178,7 +178,7 @@ HARNESS_BEGIN
         int32 vr_ret = parseSSLHandshake(&g_ssl, (char *) g_buf, in.len);
         POSTS(NATIVE_CHECK)
 #ifdef CANARY
-        PLAIN_ASSERT(CANARY, gh.calls == 0)
+        PLAIN_ASSERT(CANARY, gh.calls == 0 && g_ssl.err != SSL_ALERT_UNEXPECTED_MESSAGE && g_ssl.err != SSL_ALERT_NO_RENEGOTIATION)
 #endif
     }
 HARNESS_END
